@@ -55,6 +55,85 @@ let run_cursor (a : Sx.t list) : string =
     String.concat " " (cut outs)
   | _ -> "badcase"
 
+(* ---- C13: ParsedArg / ShortFlags *)
+let show_flag (f : LexModel.flag_out) : string = match f with
+  | LexModel.FOk c -> "(ok " ^ Z.to_string (z_of_n c) ^ ")"
+  | LexModel.FErr b -> "(err " ^ hex b ^ ")"
+
+let show_flags (l : LexModel.flag_out list) : string =
+  String.concat " " (Stdlib.List.map show_flag l)
+
+let resb (r : bool LexModel.res) : string = match r with
+  | LexModel.Panic -> "panic"
+  | LexModel.Ret b -> string_of_bool b
+
+let run_lex (a : Sx.t list) : string =
+  match a with
+  | [s] ->
+    let s = bs_of_ints (Sx.bytes s) in
+    let to_value = (if LexModel.to_value_ok s then "(ok " else "(err ") ^ hex s ^ ")" in
+    let to_long = match LexModel.to_long s with
+      | LexModel.Panic -> "panic"
+      | LexModel.Ret None -> "none"
+      | LexModel.Ret (Some ((flag, isutf8), value)) ->
+        "(some " ^ (if isutf8 then "(ok " else "(err ") ^ hex flag ^ ") " ^ opt hex value ^ ")" in
+    let to_short = match LexModel.short_of_arg s with
+      | LexModel.Panic -> "panic"
+      | LexModel.Ret None -> "none"
+      | LexModel.Ret (Some st) ->
+        let value = match snd (LexModel.sf_next_value_os st) with
+          | LexModel.Panic -> "panic"
+          | LexModel.Ret o -> opt hex o in
+        let walk = match LexModel.sf_drain (LexModel.drain_fuel st) st with
+          | LexModel.Panic -> "panic"
+          | LexModel.Ret None -> "outoffuel"
+          | LexModel.Ret (Some l) -> show_flags l in
+        "(some (value " ^ value ^ ") (walk" ^ (if walk = "" then "" else " " ^ walk) ^ "))" in
+    Printf.sprintf
+      "(is_empty %b) (is_stdio %b) (is_escape %b) (is_neg %s) (is_long %b) (is_short %b) (to_value %s) (to_long %s) (to_short %s)"
+      (LexModel.is_empty s) (LexModel.is_stdio s) (LexModel.is_escape s)
+      (resb (LexModel.is_negative_number s)) (LexModel.is_long s) (LexModel.is_short s)
+      to_value to_long to_short
+  | _ -> "badcase"
+
+let parse_sop (s : Sx.t) : LexModel.sop =
+  match Sx.head s, Sx.args s with
+  | "next_flag", _ -> LexModel.NextFlag
+  | "next_value", _ -> LexModel.NextValue
+  | "advance", [n] -> LexModel.Advance (n_of_z (Sx.num n))
+  | "is_empty", _ -> LexModel.IsEmpty
+  | "is_neg", _ -> LexModel.IsNeg
+  | "clone-and-drain", _ -> LexModel.CloneDrain
+  | h, _ -> failwith ("bad op " ^ h)
+
+let show_sout (o : LexModel.sout) : string = match o with
+  | LexModel.SFlag None -> "none"
+  | LexModel.SFlag (Some f) -> show_flag f
+  | LexModel.SValue o -> opt hex o
+  | LexModel.SAdv None -> "ok"
+  | LexModel.SAdv (Some i) -> "(err " ^ Z.to_string (z_of_n i) ^ ")"
+  | LexModel.SBool b -> string_of_bool b
+  | LexModel.SDrain l -> "(drain" ^ (if l = [] then "" else " " ^ show_flags l) ^ ")"
+  | LexModel.SPanic -> "panic"
+  | LexModel.SOutOfFuel -> "outoffuel"
+
+let run_short (a : Sx.t list) : string =
+  match a with
+  | [r; ops] ->
+    let arg = bs_of_ints (45 :: Sx.bytes r) in
+    let ops = Stdlib.List.map parse_sop (Sx.list ops) in
+    (match LexModel.short_of_arg arg with
+     | LexModel.Panic -> "panic"
+     | LexModel.Ret None -> "noshort"
+     | LexModel.Ret (Some st) ->
+       let outs = LexModel.sf_run st ops in
+       let rec cut = function
+         | [] -> []
+         | LexModel.SPanic :: _ -> ["panic"]
+         | o :: r -> show_sout o :: cut r in
+       String.concat " " ("short" :: cut outs))
+  | _ -> "badcase"
+
 let () =
   let lines = Sx.read_lines Sys.argv.(1) in
   Stdlib.List.iteri (fun i line ->
@@ -64,6 +143,8 @@ let () =
         match Sx.head sx with
         | "osstr" -> run_osstr (Sx.args sx)
         | "cursor" -> run_cursor (Sx.args sx)
+        | "lex" -> run_lex (Sx.args sx)
+        | "short" -> run_short (Sx.args sx)
         | m -> "unknown-mode " ^ m
       with e -> "driver-error " ^ Printexc.to_string e in
     print_string (string_of_int i); print_char '\t'; print_endline res) lines
